@@ -51,10 +51,23 @@ impl BlockAllocator {
         let data = unsafe { &mut *self.next_block.get() };
         let prev_block_file_path = data.file_path.clone();
         if data.offset >= MAX_FILE_SIZE {
+            // A failed roll-over must release the allocator lock and leave `next_block`
+            // untouched, or every later allocation spins forever.
+            let rolled = self
+                .paths
+                .create_new_file()
+                .and_then(|p| SharedMmapKeeper::get_mmap_arc(&p).map(|m| (p, m)));
+            let (new_path, new_mmap) = match rolled {
+                Ok(v) => v,
+                Err(e) => {
+                    self.unlock();
+                    return Err(e);
+                }
+            };
             // mark previous file as fully allocated before switching
             FileStateTracker::set_fully_allocated(prev_block_file_path);
-            data.file_path = self.paths.create_new_file()?;
-            data.mmap = SharedMmapKeeper::get_mmap_arc(&data.file_path)?;
+            data.file_path = new_path;
+            data.mmap = new_mmap;
             data.offset = 0;
             data.used = 0;
             debug_print!("[alloc] rolled over to new file: {}", data.file_path);
@@ -103,9 +116,21 @@ impl BlockAllocator {
         // to `next_block` so creating a `&mut` from `UnsafeCell` is sound.
         let data = unsafe { &mut *self.next_block.get() };
         if data.offset + alloc_size > MAX_FILE_SIZE {
-            let prev_block_file_path = data.file_path.clone();
-            data.file_path = self.paths.create_new_file()?;
-            data.mmap = SharedMmapKeeper::get_mmap_arc(&data.file_path)?;
+            // A failed roll-over must release the allocator lock and leave `next_block`
+            // untouched, or every later allocation spins forever.
+            let rolled = self
+                .paths
+                .create_new_file()
+                .and_then(|p| SharedMmapKeeper::get_mmap_arc(&p).map(|m| (p, m)));
+            let (new_path, new_mmap) = match rolled {
+                Ok(v) => v,
+                Err(e) => {
+                    self.unlock();
+                    return Err(e);
+                }
+            };
+            let prev_block_file_path = std::mem::replace(&mut data.file_path, new_path);
+            data.mmap = new_mmap;
             data.offset = 0;
             // mark the previous file fully allocated now
             FileStateTracker::set_fully_allocated(prev_block_file_path);
